@@ -26,7 +26,7 @@ def cfg_name(cfg):
 
 
 DEFAULT = dict(wrapper='interval', levy='none', size=(2,), cache_size=45, dt=None, tol=0., halfway=False,
-               supply_W=False, supply_H=False, sym_ends=False, entropy=1234, t0=0, t1=1)
+               supply_W=False, supply_H=False, sym_ends=False, entropy=1234, t0=0, t1=1, w0=0)
 
 
 def make(E, cfg):
@@ -61,11 +61,11 @@ def make(E, cfg):
             return rb, top, -t1, -t0
         return top, top, t0, t1
     if wrapper == 'path':
-        w0 = torch.zeros(size, dtype=torch.float64)
+        w0 = torch.full(size, float(c['w0']), dtype=torch.float64)
         bp = torchsde.BrownianPath(t0=t0, w0=w0)
         return bp, bp._interval, t0, t0 + 1
     if wrapper == 'tree':
-        w0 = torch.zeros(size, dtype=torch.float64)
+        w0 = torch.full(size, float(c['w0']), dtype=torch.float64)
         bt = torchsde.BrownianTree(t0=t0, w0=w0, t1=t1, entropy=c['entropy'], tol=c['tol'] or 0.1)
         return bt, bt._interval, t0, t1
     raise ValueError(wrapper)
